@@ -48,15 +48,18 @@ def pipeline(item):
     X = build_X(item)
     mats, codes = [], []
     for k in range(item["n_iter"] + 1):
-        kw = dict(token_dictionary={TOKS[i]: i for i in range(V)}, window_radii=item.get("r", 2), window_orientations="directional",
+        wins = item.get("wins") or [{"orient": "directional", "r": item.get("r", 2), "mix": 1}]
+        kw = dict(token_dictionary={TOKS[i]: i for i in range(V)}, window_radii=[w["r"] for w in wins],
+                  window_orientations=[w["orient"] for w in wins], mix_weights=[float(w["mix"]) for w in wins],
                   n_iter=k, epsilon=item["eps"], normalize_windows=item.get("wnorm", True))
         kern = item.get("kernel", "flat")
-        if kern != "flat":
-            kw["kernel_functions"] = kern
-            ka = {"power": 0.5} if kern == "geometric" else {}
-            if item["family"] == "timed":
-                ka["delta"] = 1.0
-            kw["kernel_args"] = ka
+        ka = {"power": 0.5} if kern == "geometric" else {}
+        if item["family"] == "timed" and kern != "flat":
+            ka["delta"] = 1.0
+        if len(wins) > 1 or kern != "flat":
+            kw["kernel_functions"] = [kern] * len(wins)
+            kw["kernel_args"] = [dict(ka) for _ in wins]
+            kw["window_functions"] = ["fixed"] * len(wins)
         if item["family"] == "ngram":
             kw.pop("token_dictionary")
             kw["ngram_size"] = 2
